@@ -50,11 +50,17 @@ open Rv.Push
 inductive Frame | push (vs : List PV) | reply (nested : List (List PV))
   deriving Repr
 
+/-- why the pipe ended: the server/network dropped the connection (read error), the client closed
+    it, a write failed, or ClientOption.ConnLifetime retired it (`lftmTimer` → `pipe.expired`, exit
+    error errConnExpired). `_background`'s clean-up does not look at the reason. -/
+inductive Exit | serverKill | clientClose | writeError | lifetime
+  deriving DecidableEq, Repr
+
 inductive Ev
   | frame (f : Frame)
   | setHook (inv : Bool)   -- SetPubSubHooks with non-zero hooks; inv: onInvalidations set (SetOnInvalidations)
   | clearHook              -- SetPubSubHooks(PubSubHooks{}) (also what mux.Store does)
-  | disconnect             -- read error: _backgroundRead returns, _background cleans up
+  | disconnect (why : Exit) -- _backgroundRead/_backgroundWrite returned: _background cleans up
   deriving Repr
 
 structure Cfg where
@@ -83,7 +89,7 @@ def step (cfg : Cfg) (st : St) : Ev → St × List Call
   | .frame f => if st.alive then (st, (frameInvs cfg f).flatMap (pushCalls cfg st)) else (st, [])
   | .setHook inv => if st.alive then ({ st with hookInv := inv }, []) else (st, [])   -- dead pipe: hooks are swapped out again at once
   | .clearHook => ({ st with hookInv := false }, [])
-  | .disconnect =>
+  | .disconnect _ =>
     if st.alive then
       ({ hookInv := false, alive := false },
         (if cfg.optCb then [.opt none] else []) ++ (if st.hookInv then [.hook none] else []))
